@@ -192,7 +192,11 @@ def run_scenario(env, kind, scenario, scratch, bound, budget, viol, stats, only_
         # its store of K, task b is run k yield points into its own store of K, then a completes, then b.
         stored_keys = sorted({str(key).lstrip("/") for (t, op, key) in first.trace if op == "store"})
         ntasks = len(queries)
+        op_pairs = [("store", "store"), ("get", "store"), ("store", "get")]
+        if stats.get("tier") == "thorough":
+            op_pairs += [("store_metadata", "store"), ("store", "store_metadata"), ("get", "store_metadata"), ("remove", "store"), ("store", "remove")]
         for K in stored_keys:
+          for (opa, opb) in op_pairs:
             for a in range(ntasks):
                 for b in range(ntasks):
                     if a == b:
@@ -200,11 +204,11 @@ def run_scenario(env, kind, scenario, scratch, bound, budget, viol, stats, only_
                     for k in range(0, 40):
                         st = {"phase": 0, "inside": False, "n": 0, "reached": False}
 
-                        def directed(enabled, last, pend, st=st, a=a, b=b, K=K, k=k):
-                            def is_store(p):
-                                return p is not None and p[0] == "store" and str(p[1]).lstrip("/") == K
+                        def directed(enabled, last, pend, st=st, a=a, b=b, K=K, k=k, opa=opa, opb=opb):
+                            def is_op(p, op):
+                                return p is not None and p[0] == op and str(p[1]).lstrip("/") == K
                             if st["phase"] == 0:
-                                if last == a and is_store(pend):
+                                if last == a and is_op(pend, opa):
                                     st["phase"] = 1
                                     return b if b in enabled else a
                                 return a if a in enabled else enabled[0]
@@ -212,10 +216,10 @@ def run_scenario(env, kind, scenario, scratch, bound, budget, viol, stats, only_
                                 if last == b and b in enabled:
                                     if st["inside"]:
                                         if pend is None or not str(pend[0]).startswith("fs:"):
-                                            st["phase"] = 2      # b left its store operation before k points
+                                            st["phase"] = 2      # b left its operation before k points
                                             return a if a in enabled else b
                                         st["n"] += 1
-                                    elif is_store(pend):
+                                    elif is_op(pend, opb):
                                         st["inside"] = True
                                     if st["inside"] and st["n"] >= k:
                                         st["phase"] = 2
@@ -235,7 +239,7 @@ def run_scenario(env, kind, scenario, scratch, bound, budget, viol, stats, only_
                         finally:
                             policy_box[0] = None
                         if not st["reached"]:
-                            break          # a never stores K, b never stores K, or b's store has fewer than k points
+                            break          # a never does opa on K, b never opb on K, or b's operation has fewer than k points
                         stats["directed"] = stats.get("directed", 0) + 1
                         yield sch
                         if not file_backed:
@@ -278,7 +282,8 @@ def run_shard(spec):
     env = E.Env()
     scratch = spec["scratch"]
     violations = {}
-    stats = {"evaluations": 0, "nontrivial": set(), "interleavings": set(), "scenario": "", "seed": spec.get("seed", 0)}
+    stats = {"evaluations": 0, "nontrivial": set(), "interleavings": set(), "scenario": "", "seed": spec.get("seed", 0),
+             "tier": spec.get("tier", "quick")}
 
     def viol(what, detail, w):
         sig = "C12|%s" % what
